@@ -154,3 +154,71 @@ def queries_f(rng, xs, count, special=True):
 
 LAYS_1D = ["c", "c", "s2", "s3", "rev"]
 LAYS_ND = ["c", "c", "f", "s2", "rev", "perm", "w"]
+
+
+# ------------------------------------------------------------------ protocol line builders
+from vlib import t_xspec, t_ndarr, t_strat, t_buf, t_vec, fq, ff, shape_size
+
+
+def i1_line(S, x, shape, flat, strat, entry, dtag="dyn", xlay="c", dlay="c"):
+    fmt = fq if S == "Q" else ff
+    return f"{S} i1 {dtag} {t_xspec(x, fmt, xlay)} {t_ndarr(shape, flat, fmt, dlay)} {t_strat(strat, fmt)} {entry}"
+
+
+def i2_line(S, x, y, shape, flat, ext, entry, dtag="dyn", xlay="c", ylay="c", dlay="c"):
+    fmt = fq if S == "Q" else ff
+    return (f"{S} i2 {dtag} {t_xspec(x, fmt, xlay)} {t_xspec(y, fmt, ylay)} "
+            f"{t_ndarr(shape, flat, fmt, dlay)} {int(ext)} {entry}")
+
+
+def e_scalar(S, *q):
+    fmt = fq if S == "Q" else ff
+    return "scalar " + " ".join(fmt(v) for v in q)
+
+
+def e_single(S, *q):
+    fmt = fq if S == "Q" else ff
+    return "single " + " ".join(fmt(v) for v in q)
+
+
+def e_into(S, q, bufshape, lay="c"):
+    fmt = fq if S == "Q" else ff
+    qs = q if isinstance(q, (list, tuple)) else [q]
+    return "into " + " ".join(fmt(v) for v in qs) + " " + t_buf(bufshape, lay)
+
+
+def e_array(S, qshape, *qlists, qtag="dyn", lay="c"):
+    fmt = fq if S == "Q" else ff
+    return f"array {qtag} " + " ".join(t_ndarr(qshape, ql, fmt, lay) for ql in qlists)
+
+
+def e_ainto(S, qshape, bufshape, *qlists, qtag="dyn", lay="c", blay="c"):
+    fmt = fq if S == "Q" else ff
+    return f"ainto {qtag} " + " ".join(t_ndarr(qshape, ql, fmt, lay) for ql in qlists) + " " + t_buf(bufshape, blay)
+
+
+def pick_dims(rng, data_rank, qrank=None):
+    """(dtag, qtag) the runner supports for these ranks"""
+    dtag = "sta" if data_rank <= 6 and rng.random() < 0.6 else "dyn"
+    qtag = "dyn"
+    if qrank is not None and qrank <= 4 and rng.random() < 0.6:
+        qtag = "sta"
+    return dtag, qtag
+
+
+def lanes_of(shape, k=1):
+    return shape_size(shape[k:])
+
+
+def exact_linear(xs, rows, q):
+    """exact piecewise-linear interpolant (extrapolating with the end line); rows[i] = lane list"""
+    from vlib import lin_bracket
+    i = lin_bracket(xs, q)
+    t = Fr(q - xs[i]) / Fr(xs[i + 1] - xs[i])
+    return i, [Fr(a) + (Fr(b) - Fr(a)) * t for a, b in zip(rows[i], rows[i + 1])]
+
+
+def rows_of(shape, flat, k=1):
+    L = lanes_of(shape, k)
+    n = shape_size(shape[:k])
+    return [flat[i * L:(i + 1) * L] for i in range(n)]
